@@ -8,6 +8,8 @@ NOTE = ("Trusted: z3 5.1 / cvc5 1.0.3 verdicts; the pyvc executor's encoding of 
         "bs4/lxml/cssutils; floats under the standard error model (binary64, round-to-nearest, no overflow); "
         "the bounded parts are run-time contract evaluation, never counted as proof. See evidence/<id>.json.")
 CLAIMED = {
+ "C18": ("contract-based deductive verification (AST->SMT VCs on __eq__/__hash__/parsers, bottom-up with callee contracts; z3 regular-language equivalence for the size grammar) + bounded run-time contracts for float printing",
+         "P: eq iff same class and components equal and equal => equal hash for the six classes (modular), receiver-unchanged frames of every transformer, Size.from_string language = grammar over the property alphabet, parsed value/unit, two-size and padding shorthand parsing; B: printing/re-parsing (dtoa) over a value grid, exhaustive short strings, pair grid", "3 C18"),
  "C02": ("contract-based deductive verification (AST->SMT VCs on the writers' time formatting functions) + bounded run-time contracts with reference parsers",
          "P: shared hh:mm:ss formatter, WebVTT timestamp, MicroDVD frames, SRT timing lines (2 captions), DFXP p begin/end, SAMI sync decision per call - all for every instant below 24 h, int and SCC-style float times; B: all seven writers on generated caption sets parsed by independent reference parsers", "3 C02"),
  "C01": ("contract-based deductive verification (AST->SMT VCs on the reader time-expression functions) + bounded run-time contracts on whole documents",
